@@ -2,13 +2,17 @@
    the Go AST of vec/v2/v2.go, vec/v3/v3.go, vec/conv/conv.go, sdf/utils.go, sdf/sdf2.go,
    sdf/sdf3.go, sdf/box2.go, sdf/box3.go, sdf/matrix.go (MulBox) on every run) is equal, for all
    arguments and over an arbitrary `O : Ops`, to the hand-written model function of Geo/Vec.v,
-   Geo/Box.v, Geo/Mat.v, Sdf/Union2.v, Sdf/Shape.v.  All proofs are by conversion (`same_as` =
-   reflexivity after unfolding the constructor guards; `destruct` of one boolean where Go writes
-   `if x != 0 {..}` and the model `if x =? 0 then .. else ..`), so they hold exactly as long as
-   the Go function and the model function are the same term up to let-structure.  An edit of the
-   Go source (or of the model) that changes what a function computes makes the lemma of that
-   function fail, with the message `Tactic failure: TRANSL_<name>: ...` naming the theorem of
-   Props/TRANSL.v that cites it.
+   Geo/Box.v, Geo/Mat.v, Sdf/Union2.v, Sdf/Shape.v.  How the equalities are decided is described in
+   Sdf/GenEqTac.v: conversion (so: up to let-structure, helpers extracted or inlined, named constants),
+   else conversion on every branch of an exhaustive case analysis over the ATOMIC tests of the `if`
+   conditions (so: up to the shape of the control flow - nested if/else, else-if chains, switch, early
+   return, && / || / ! against tests made one after the other), for loops over an arbitrary list a short
+   induction stated for ANY loop body meeting the specification of one iteration (reads of an element just
+   written are forwarded, a table may be filled by index or by append and may hold the whole interval
+   or only its minimum).  No law of arithmetic is used (`O` is abstract), so an edit of the Go source
+   (or of the model) that changes what a function computes - an expression, a comparison, the order of two
+   tests with different outcomes, a branch result - makes the lemma of that function fail, with the message
+   `Tactic failure: TRANSL_<name>: ...` naming the theorem of Props/TRANSL.v that cites it.
 
    Evaluate methods: the receiver fields are parameters of the generated definition; the lemma
    substitutes what the model's constructor `k_xxx` pre-computes and is stated about the
@@ -825,6 +829,16 @@ Section GenEqLoops.
     forall n i v bmin bmax, fst (Loop.count_loop n i F (bmin, bmax, v)) = rotunion_box3 n step v bmin bmax.
   Proof. intros step F HF. induction n as [|n IH]; intros; cbn; [reflexivity|]. rewrite HF. apply IH. Qed.
 
+  (* the same loop when the source assigns the two corners in the other order (the state is (bbMax, bbMin, v)) *)
+  Lemma count_loop_rotbox2_sw : forall step (F : Z -> V2 * V2 * list V2 -> V2 * V2 * list V2),
+    (forall i bmax bmin v, F i (bmax, bmin, v) = (v2max bmax (v2set_max v), v2min bmin (v2set_min v), map (m33_mulposition step) v)) ->
+    forall n i v bmin bmax, (snd (fst (Loop.count_loop n i F (bmax, bmin, v))), fst (fst (Loop.count_loop n i F (bmax, bmin, v)))) = rotunion_box2 n step v bmin bmax.
+  Proof. intros step F HF. induction n as [|n IH]; intros; cbn; [reflexivity|]. rewrite HF. apply IH. Qed.
+  Lemma count_loop_rotbox3_sw : forall step (F : Z -> V3 * V3 * list V3 -> V3 * V3 * list V3),
+    (forall i bmax bmin v, F i (bmax, bmin, v) = (v3max bmax (v3set_max v), v3min bmin (v3set_min v), map (m44_mulposition step) v)) ->
+    forall n i v bmin bmax, (snd (fst (Loop.count_loop n i F (bmax, bmin, v))), fst (fst (Loop.count_loop n i F (bmax, bmin, v)))) = rotunion_box3 n step v bmin bmax.
+  Proof. intros step F HF. induction n as [|n IH]; intros; cbn; [reflexivity|]. rewrite HF. apply IH. Qed.
+
   Lemma RotateUnion2D_ctor : forall (s : Obj2 O) num step,
     obj2_same (option_map obj2_of (sdf_RotateUnion2D (ev2 s) (bb2 s) num step)) (k_rotateunion2 MinDef s num step).
   Proof.
@@ -832,13 +846,21 @@ Section GenEqLoops.
     unfold sdf_RotateUnion2D, k_rotateunion2 in *.
     destruct (num <=? 0)%Z; [exact I|]. cbv zeta in *.
     match goal with |- context [Loop.count_loop ?n0 ?i0 ?F ?st] =>
-      assert (HB : fst (Loop.count_loop n0 i0 F st) =
-                   rotunion_box2 (Z.to_nat num) step (box2_vertices (bb2 s)) (hd v2zero (box2_vertices (bb2 s))) (hd v2zero (box2_vertices (bb2 s))));
-      [ apply (count_loop_rotbox2 step F); intros; cbv beta iota;
-        rewrite ?v2_VecSet_Min_eq, ?v2_VecSet_Max_eq, ?mulVertices2_eq; step_eq TRANSL_RotateUnion2D_ctor
-      | destruct (Loop.count_loop n0 i0 F st) as [[bbMin bbMax] v] ]
+      first [
+        assert (HB : fst (Loop.count_loop n0 i0 F st) =
+                     rotunion_box2 (Z.to_nat num) step (box2_vertices (bb2 s)) (hd v2zero (box2_vertices (bb2 s))) (hd v2zero (box2_vertices (bb2 s))));
+        [ apply (count_loop_rotbox2 step F); intros; cbv beta iota;
+          rewrite ?v2_VecSet_Min_eq, ?v2_VecSet_Max_eq, ?mulVertices2_eq; step_eq TRANSL_RotateUnion2D_ctor
+        | destruct (Loop.count_loop n0 i0 F st) as [[bbMin bbMax] v] ]
+      | (* the two corners assigned in the other order *)
+        assert (HB : (snd (fst (Loop.count_loop n0 i0 F st)), fst (fst (Loop.count_loop n0 i0 F st))) =
+                     rotunion_box2 (Z.to_nat num) step (box2_vertices (bb2 s)) (hd v2zero (box2_vertices (bb2 s))) (hd v2zero (box2_vertices (bb2 s))));
+        [ apply (count_loop_rotbox2_sw step F); intros; cbv beta iota;
+          rewrite ?v2_VecSet_Min_eq, ?v2_VecSet_Max_eq, ?mulVertices2_eq; step_eq TRANSL_RotateUnion2D_ctor
+        | destruct (Loop.count_loop n0 i0 F st) as [[bbMax bbMin] v] ]
+      | fail 1 "TRANSL_RotateUnion2D_ctor: the bounding-box loop generated from the current Go source is not the loop of the hand-written model" ]
     end.
-    cbn [fst] in HB. rewrite <- HB in *.
+    cbn [fst snd] in HB. rewrite <- HB in *.
     split; [reflexivity|]. intro p. exact (HE _ p eq_refl).
   Qed.
   Lemma RotateUnion3D_ctor : forall (s : Obj3 O) num step,
@@ -848,13 +870,21 @@ Section GenEqLoops.
     unfold sdf_RotateUnion3D, k_rotateunion3 in *.
     destruct (num <=? 0)%Z; [exact I|]. cbv zeta in *.
     match goal with |- context [Loop.count_loop ?n0 ?i0 ?F ?st] =>
-      assert (HB : fst (Loop.count_loop n0 i0 F st) =
-                   rotunion_box3 (Z.to_nat num) step (box3_vertices (bb3 s)) (hd v3zero (box3_vertices (bb3 s))) (hd v3zero (box3_vertices (bb3 s))));
-      [ apply (count_loop_rotbox3 step F); intros; cbv beta iota;
-        rewrite ?v3_VecSet_Min_eq, ?v3_VecSet_Max_eq, ?mulVertices3_eq; step_eq TRANSL_RotateUnion3D_ctor
-      | destruct (Loop.count_loop n0 i0 F st) as [[bbMin bbMax] v] ]
+      first [
+        assert (HB : fst (Loop.count_loop n0 i0 F st) =
+                     rotunion_box3 (Z.to_nat num) step (box3_vertices (bb3 s)) (hd v3zero (box3_vertices (bb3 s))) (hd v3zero (box3_vertices (bb3 s))));
+        [ apply (count_loop_rotbox3 step F); intros; cbv beta iota;
+          rewrite ?v3_VecSet_Min_eq, ?v3_VecSet_Max_eq, ?mulVertices3_eq; step_eq TRANSL_RotateUnion3D_ctor
+        | destruct (Loop.count_loop n0 i0 F st) as [[bbMin bbMax] v] ]
+      | (* the two corners assigned in the other order *)
+        assert (HB : (snd (fst (Loop.count_loop n0 i0 F st)), fst (fst (Loop.count_loop n0 i0 F st))) =
+                     rotunion_box3 (Z.to_nat num) step (box3_vertices (bb3 s)) (hd v3zero (box3_vertices (bb3 s))) (hd v3zero (box3_vertices (bb3 s))));
+        [ apply (count_loop_rotbox3_sw step F); intros; cbv beta iota;
+          rewrite ?v3_VecSet_Min_eq, ?v3_VecSet_Max_eq, ?mulVertices3_eq; step_eq TRANSL_RotateUnion3D_ctor
+        | destruct (Loop.count_loop n0 i0 F st) as [[bbMax bbMin] v] ]
+      | fail 1 "TRANSL_RotateUnion3D_ctor: the bounding-box loop generated from the current Go source is not the loop of the hand-written model" ]
     end.
-    cbn [fst] in HB. rewrite <- HB in *.
+    cbn [fst snd] in HB. rewrite <- HB in *.
     split; [reflexivity|]. intro p. exact (HE _ p eq_refl).
   Qed.
 
